@@ -960,13 +960,13 @@ class Translator:
                 self.aliases[m.group(1)] = 'ColorTraits<%s>' % ('true' if v else 'false')
                 return e + 1, '/* using %s */' % stmt
             raise ExtractError('%s: unsupported using: %s' % (self.cur.cname, stmt))
-        if qual in ('std::min', 'std::max', 'std::abs', 'std::swap') or (len(names) == 1 and first in ('clamp',) and nxt == '('):
+        if qual in ('std::min', 'std::max', 'std::abs', 'std::swap') or (len(names) == 1 and first in ('clamp', 'abs') and nxt == '('):
             e = self._match(toks, k)
             args = [self.tr_tokens(a).strip() for a in self._split_args(toks[k + 1:e])]
             for a in args:
                 if re.search(r'\+\+|--|(?<![=!<>])=(?!=)', a):
                     raise ExtractError('%s: side effect inside %s argument' % (self.cur.cname, qual))
-            mac = {'std::min': 'STD_MIN', 'std::max': 'STD_MAX', 'std::abs': 'STD_ABS', 'std::swap': 'STD_SWAP', 'clamp': 'CLAMP'}[qual]
+            mac = {'std::min': 'STD_MIN', 'std::max': 'STD_MAX', 'std::abs': 'STD_ABS', 'std::swap': 'STD_SWAP', 'clamp': 'CLAMP', 'abs': 'STD_ABS'}[qual]
             text = '%s(%s)' % (mac, ', '.join('(' + a + ')' for a in args))
             return self._post(toks, e + 1, text, None)
         # constants
